@@ -144,6 +144,14 @@ fn roundtrip(p: &Probe, date: (u16, u16, u16), time: (u16, u16, u16, u16), idx: 
         let mdt = DateTime::new(Date::new(md.0, md.1, md.2), Time::new(mt.0, mt.1, mt.2, mt.3));
         let adt = Date::new(ad.0, ad.1, ad.2);
         let root = p.fs.root_dir();
+        // every 7th case the entry carries stamp words that no library call produces (0 = "not recorded" as left
+        // by DOS / FatFs-style writers, or all ones): the setters' "did it change" guards decode them
+        if idx % 7 == 3 {
+            let fill = if idx % 14 == 3 { 0u8 } else { 0xFF };
+            let mut st = p.st.borrow_mut();
+            st.write_at(p.entry_off + 13, &[fill; 7]);
+            st.write_at(p.entry_off + 22, &[fill; 4]);
+        }
         {
             let mut f = root.open_file("t").map_err(|e| ("C18/machinery/open".to_string(), format!("{:?}", sess::ek(e))))?;
             match idx % 3 {
@@ -162,6 +170,13 @@ fn roundtrip(p: &Probe, date: (u16, u16, u16), time: (u16, u16, u16, u16), idx: 
                     f.set_modified(mdt);
                     f.set_created(cdt);
                 }
+            }
+            // every 11th case the first write-back of the entry fails (transient device error at the k-th device
+            // call); the retry below must still bring the stamps to the disk
+            if idx % 11 == 5 {
+                p.st.borrow_mut().arm(Some((1 + (idx as u64 / 11) % 4, 0xE0F0_0077)), None);
+                let _ = f.flush();
+                p.st.borrow_mut().disarm();
             }
             f.flush().map_err(|e| ("C18/roundtrip/flush-failed".to_string(), format!("{ctx}: {:?}", sess::ek(e))))?;
         }
